@@ -130,6 +130,9 @@ def search(ctx):
                 break
     finally:
         xfab.CHECKS.activated = old
+    from .. import history as H
+    for modname, mod in (('tools', tools), ('laue', laue)):
+        fails += H.narrow_int_replays(ctx, 'xfab.%s.quart_to_omega(w, 0.1, 0.2)' % modname, lambda w, m=mod: m.quart_to_omega(w, 0.1, 0.2), list(range(-180, 181, 7)) + [1, 90, 127, 128, 255, 256, 359])
     return fails[:40]
 
 
